@@ -815,7 +815,41 @@ func c14_8(c *core.Ctx, p *core.Prog) {
 		return
 	}
 	nS, nR := 0, 0
+	// release helpers: methods of the stream consumer that release its reader; their call sites are the release sites
+	helper := map[*ssa.Function]bool{}
 	for _, fn := range arrowRecordFuncs(p) {
+		if fn.Signature.Recv() == nil || core.NamedOf(fn.Signature.Recv().Type()) == nil || core.NamedOf(fn.Signature.Recv().Type()).Obj() != tn {
+			continue
+		}
+		core.EachInstr(fn, func(i ssa.Instruction) {
+			if cl, ok := i.(*ssa.Call); ok && core.IsMethodOf(core.CalleeObj(cl), arrowIPC, "Reader", "Release") && isFieldLoad(cl.Call.Args[0], rdF) {
+				helper[fn] = true
+			}
+		})
+	}
+	isDelete := func(j ssa.Instruction) bool {
+		d, ok := j.(*ssa.Call)
+		if !ok {
+			return false
+		}
+		b, ok := d.Call.Value.(*ssa.Builtin)
+		return ok && b.Name() == "delete"
+	}
+	for _, fn := range arrowRecordFuncs(p) {
+		core.EachInstr(fn, func(i ssa.Instruction) {
+			if cl, ok := i.(*ssa.Call); ok && helper[cl.Call.StaticCallee()] && !helper[fn] {
+				nR++
+				inClose := fn.Name() == "Close"
+				withDelete := core.MustPassBetween(fn, cl, nil, isDelete)
+				c.Check(inClose || withDelete, fmt.Sprintf("release#%d@%s", nR, core.FuncName(fn)), p.Pos(cl.Pos()), core.FuncName(fn), "the reader is released (through its helper) together with its map entry (or in Close)",
+					"a stream's reader is released while its entry stays registered: later payloads of the sub-stream use a released reader or restart the IPC stream")
+			}
+		})
+	}
+	for _, fn := range arrowRecordFuncs(p) {
+		if helper[fn] {
+			continue
+		}
 		core.EachInstr(fn, func(i ssa.Instruction) {
 			if s, ok := storesTo(i, rdF); ok {
 				if _, lit := s.Addr.(*ssa.FieldAddr).X.(*ssa.Alloc); lit {
